@@ -19,7 +19,9 @@ ASSUMPTIONS = ["method names are pairwise distinct (the corpus avoids identifier
 IDS = ["Red", "GreenApple", "HTTPServer", "Utf8String", "X", "Abc_def", "A1b2", "XMLHttpRequest2", "Id", "IOError", "Blue2Go", "V10",
        "Http2_Proxy", "Z9", "QRCode", "Wi5Fi77", "r#type", "r#Match", "r#loop_Forever2",
        # non-ASCII identifiers: the method names come from the Rust reference on heck (genprobe `snakifyu`), not from the ASCII model
-       "Öl2", "Über9Mensch", "Café3", "ÉlanVital", "straßeName7x"]
+       "Öl2", "Über9Mensch", "Café3", "ÉlanVital", "straßeName7x",
+       # leading / trailing / doubled underscores around all-lower-case words (heck drops and collapses them)
+       "Type_", "_reserved", "Two__words", "__x", "abc_"]
 TYSETS = [[], ["u8"], ["String"], ["i32", "bool"], ["String", "u8", "usize"], ["bool", "i32"], ["Option<u8>"]]
 
 
